@@ -21,6 +21,11 @@ pub fn main(a: &Args) -> i32 {
         sim.subscribe(0).unwrap();
         sim.subscribe(1).unwrap();
         let p1 = sim.peer_id(1);
+        if std::env::var_os("SMOKE_WRONG_PIN").is_some() {
+            let r = sim.connect(0, sim.addr(1), Some(sim.peer_id(0))).await;
+            eprintln!("wrong pin: {r:?}");
+            sim.sleep_ms(5000).await;
+        }
         let r = sim.connect(0, sim.addr(1), Some(p1)).await;
         sim.sleep_ms(50).await;
         sim.drain_events();
